@@ -5,7 +5,7 @@ finalize() yields 32 HashByte items.  Two digests are equal iff their preimages 
 (collision freedom is the stated assumption); digest bytes are never compared with ordinary bytes."""
 import hashlib
 import z3
-from .engine import (Int, Bool, Struct, Enum, Vec, Cell, Ref, Slice, Opaque, mkint, Unsupported, UNIT)
+from .engine import (Int, Bool, Struct, Enum, Vec, Cell, Ref, Slice, Opaque, mkint, Unsupported, UNIT, concrete)
 from .models import model, items_of, as_slice
 from .models_vec import IterV, items_eq
 
@@ -32,6 +32,40 @@ class HashByte:
 
     def __repr__(self):
         return 'HashByte(%d of H(%d items))' % (self.i, len(self.pre))
+
+    def conc(self):
+        """the concrete value of this digest byte (or hex digit, i >= 1000) when the whole preimage is concrete, else None"""
+        d = concrete_digest(self.pre)
+        if d is None:
+            return None
+        if self.i >= 1000:
+            k = self.i - 1000
+            nib = (d[k // 2] >> 4) if k % 2 == 0 else (d[k // 2] & 15)
+            return ord('0123456789abcdef'[nib])
+        return d[self.i]
+
+
+_DIGESTS = {}
+
+
+def concrete_digest(pre):
+    k = id(pre)
+    hit = _DIGESTS.get(k)
+    if hit is not None and hit[0] is pre:
+        return hit[1]
+    bs = bytearray()
+    for it in pre:
+        if isinstance(it, HashByte):
+            c = it.conc()
+        else:
+            c = it.c if it.c is not None else concrete(it.e)
+        if c is None:
+            _DIGESTS[k] = (pre, None)
+            return None
+        bs.append(c)
+    d = hashlib.sha256(bytes(bs)).digest()
+    _DIGESTS[k] = (pre, d)
+    return d
 
 
 def digest_items(pre):
